@@ -27,7 +27,8 @@ import Driver.Util
     pdshmodel relay xpoll                           `XPoll.xpoll` / `XPoll.loopIter` (Relay/XPoll.lean)
       xp NFDS TIMEOUT null|fd:ev:rev,.. KANS   (KANS = E<errno> | R<rv>:<revents>,.. -- what poll(2) answers)
                                                     -> <rv> <errno> | -|<timeout>;fd:ev,.. | fd:ev:rev,..
-      it SOPT TBEFORE TAFTER FDO FDE STALEO STALEE KANS   (one iteration of the loop of _rsh_thread)
+      it SOPT TBEFORE TAFTER FDO FDE STALEO STALEE KANS [ERRFIRST]   (one iteration of the loop of _rsh_thread;
+                                                     ERRFIRST = 1: the code under test serves stderr first)
                                                     -> <timeoutBefore|pollFailed|timeoutInPoll|again|dispatch> <calls: - o e oe>
 
     spec lines:  rec <o|e> L K i N name_0 .. name_{N-1} S K' em_1 .. em_K'
@@ -214,7 +215,7 @@ def xpollLine (line : String) : String :=
       let xs := if r.xfds.isEmpty then "-" else ",".intercalate (r.xfds.map fun x => s!"{x.fd}:{x.events}:{x.revents}")
       s!"{r.rv} {r.errno} | {passed} | {xs}"
     | _, _, _, _ => "bad-op"
-  | ["it", sopt, tb, ta, fdo, fde, so, se, kans] =>
+  | "it" :: sopt :: tb :: ta :: fdo :: fde :: so :: se :: kans :: more =>
     match fdo.toInt?, fde.toInt?, so.toNat?, se.toNat?, parseKAns kans with
     | some fdo, some fde, some so, some se, some k =>
       let it := (XPoll.loopIter (sopt ≠ "0") (tb ≠ "0") (ta ≠ "0") fdo fde so se k).1
@@ -224,7 +225,7 @@ def xpollLine (line : String) : String :=
         | .timeoutInPoll => "timeoutInPoll"
         | .again => "again"
         | .dispatch _ _ => "dispatch"
-      let calls := String.join (it.calls.map fun b => if b then "e" else "o")
+      let calls := String.join ((it.calls (more.head? = some "1")).map fun b => if b then "e" else "o")
       s!"{nm} {if calls = "" then "-" else calls}"
     | _, _, _, _, _ => "bad-op"
   | _ => "bad-op"
